@@ -136,6 +136,20 @@ Proof.
   - eexists _, _. split; reflexivity.
 Qed.
 
+(* the line counter after a token: the breaks of the gap before it and those inside it *)
+Definition tline (ln : Z) (g : str) (t : ltok) : Z := (ln + nl_count g + nl_count (ltok_text t))%Z.
+
+Lemma nl_count_cons_plain c s : (c =? 10) = false -> (c =? 13) = false -> nl_count (c :: s) = nl_count s.
+Proof. intros H1 H2. unfold nl_count. cbn [count_char count_crlf]. rewrite H1, H2. cbn [andb]. lia. Qed.
+Lemma nl_count_name s : forallb is_name_char s = true -> nl_count s = 0%Z.
+Proof.
+  induction s as [|c s IH]; cbn [forallb]; intros H; [reflexivity|]. apply andb_prop in H as [Hc Hs].
+  apply name_char_not_space in Hc.
+  rewrite nl_count_cons_plain; [now apply IH| |].
+  - destruct (c =? 10) eqn:E; [|reflexivity]. apply N.eqb_eq in E. subst c. discriminate.
+  - destruct (c =? 13) eqn:E; [|reflexivity]. apply N.eqb_eq in E. subst c. discriminate.
+Qed.
+
 Lemma eat_whitespace_gap g s ln :
   all_space g -> stops is_space s -> eat_whitespace (g ++ s) ln = (s, (ln + nl_count g)%Z).
 Proof. intros Hg Hs. unfold eat_whitespace. rewrite (span_app _ _ _ Hg Hs). reflexivity. Qed.
@@ -185,27 +199,27 @@ Qed.
 
 Lemma get_token_tok g t r ae ln : all_space g -> wf_ltok t -> boundary_ok t r ->
   get_token group_pats ae (g ++ ltok_text t ++ r) ln
-  = Ok (Some (pat_of t, ltok_text t), (r, (ln + nl_count g)%Z)).
+  = Ok (Some (pat_of t, ltok_text t), (r, tline ln g t)).
 Proof.
   intros Hg Hwf Hb. unfold get_token.
   destruct (ltok_text_head t Hwf) as (c & tl & Htxt & Hc).
   rewrite eat_whitespace_gap; [|exact Hg|rewrite Htxt; cbn; exact Hc].
-  rewrite (first_match_tok t r Hwf Hb). rewrite Htxt. reflexivity.
+  rewrite (first_match_tok t r Hwf Hb). unfold tline. rewrite Htxt. reflexivity.
 Qed.
 
 Lemma required_tok g t r ae ln : all_space g -> wf_ltok t -> boundary_ok t r ->
   required group_pats ae (g ++ ltok_text t ++ r) ln
-  = Ok ((pat_of t, ltok_text t), (r, (ln + nl_count g)%Z)).
+  = Ok ((pat_of t, ltok_text t), (r, tline ln g t)).
 Proof. intros. unfold required. rewrite get_token_tok by assumption. reflexivity. Qed.
 
 (* a command name *)
 Lemma required_name g s r ln : all_space g -> wf_name s -> stops is_name_char r ->
-  required [P_NAME] true (g ++ s ++ r) ln = Ok ((P_NAME, s), (r, (ln + nl_count g)%Z)).
+  required [P_NAME] true (g ++ s ++ r) ln = Ok ((P_NAME, s), (r, tline ln g (LName s))).
 Proof.
   intros Hg Hwf Hr. unfold required, get_token.
   destruct (ltok_text_head (LName s) Hwf) as (c & tl & Htxt & Hc). cbn [ltok_text] in Htxt.
   rewrite eat_whitespace_gap; [|exact Hg|rewrite Htxt; cbn; exact Hc].
-  cbn [first_match]. rewrite (match_name s r Hwf Hr). rewrite Htxt. reflexivity.
+  cbn [first_match]. rewrite (match_name s r Hwf Hr). unfold tline. cbn [ltok_text]. rewrite Htxt. reflexivity.
 Qed.
 
 (* the end of the text after a final gap *)
@@ -219,14 +233,14 @@ Qed.
 
 (* an opening brace is found / something else is left alone *)
 Lemma optional_lbrace g r ln : all_space g ->
-  optional [P_LBRACE] (g ++ ltok_text LL ++ r) ln = Ok (Some (P_LBRACE, ltok_text LL), (r, (ln + nl_count g)%Z)).
+  optional [P_LBRACE] (g ++ ltok_text LL ++ r) ln = Ok (Some (P_LBRACE, ltok_text LL), (r, tline ln g LL)).
 Proof.
   intros Hg. unfold optional, get_token.
   rewrite eat_whitespace_gap; [reflexivity|exact Hg|reflexivity].
 Qed.
 
 Lemma required_lbrace g r ln : all_space g ->
-  required [P_LBRACE] false (g ++ ltok_text LL ++ r) ln = Ok ((P_LBRACE, ltok_text LL), (r, (ln + nl_count g)%Z)).
+  required [P_LBRACE] false (g ++ ltok_text LL ++ r) ln = Ok ((P_LBRACE, ltok_text LL), (r, tline ln g LL)).
 Proof. intros Hg. unfold required. fold (optional [P_LBRACE] (g ++ ltok_text LL ++ r) ln). rewrite (optional_lbrace g r ln Hg). reflexivity. Qed.
 
 (* ---- the literal constructors on printed tokens *)
